@@ -13,8 +13,8 @@
            boundary classes).  Avoid = TRUE keeps only calls for which the as-written model predicts no hazard
            (deep behaviours that must be crash-free on the real library); Avoid = FALSE lets hazards through and
            ends the behaviour at the first one.  CONSTRAINT Emit prints BEHAVIOUR lines (the calls as JSON).
-   "sweep" prints, for six contexts (fresh / bank / bank+song / a music file rejected midway / the same + rewind / sounding notes
-           under DMX), every function with one parameter at a time swept over its classes
+   "sweep" prints, for seven contexts (fresh / bank / bank+song / a music file rejected midway / the same + rewind / a looping song
+           after rewind / sounding notes under DMX), every function with one parameter at a time swept over its classes
            (SWEEP lines = ready histories: hazard-free calls chained, hazardous calls on their own). *)
 EXTENDS ApiSurface, Json
 CONSTANTS MaxDepth, EmitDepth, Mode, Avoid, FuelCap, Salt
@@ -130,33 +130,40 @@ Ctx == [
   song  |-> << E("openBankData", [a |-> "b2"]), E("openData", [a |-> "s1"]), E("setLoopEnabled", [v |-> 1]) >>,
   rej   |-> << E("openBankData", [a |-> "b1"]), E("openData", [a |-> "s2"]), E("openData", [a |-> "sbadtrk"]) >>,
   rejrew |-> << E("openBankData", [a |-> "b1"]), E("openData", [a |-> "s1"]), E("openData", [a |-> "sbadvlq"]), E("positionRewind", [nd |-> 0]) >>,
+  looprew |-> << E("openBankData", [a |-> "b1"]), E("openData", [a |-> "s2"]), E("setLoopEnabled", [v |-> 1]), E("positionRewind", [nd |-> 0]) >>,
   note  |-> << E("openBankData", [a |-> "b1"]), E("rt_noteOn", [ch |-> 0, k |-> 64, v |-> 127]), E("rt_noteOn", [ch |-> 9, k |-> 64, v |-> 127]),
                E("setVolumeRangeModel", [v |-> 3]) >> ]
 RECURSIVE Run(_, _)
 Run(St, evs) == IF evs = << >> THEN St ELSE Run(Spend(St, Head(evs)), Tail(evs))
-CtxNames == << "fresh", "bank", "song", "rej", "rejrew", "note" >>
-ChainMax == 40
+CtxNames == << "fresh", "bank", "song", "rej", "rejrew", "looprew", "note" >>
+ChainMax == 1          \* calls per sweep history after the context prefix (1: no interference between the swept calls)
 \* the work list of one context, computed once (TLC does not memoise): its state, its prefix, the calls still to place
 SwOf(i) == LET c == CtxNames[i]  st0 == Run(New(44100), Ctx[c]) IN
            [i |-> i, st0 |-> st0, h0 |-> << [e |-> "Init", rate |-> 44100] >> \o Ctx[c],
             evs |-> FlattenSeq([j \in DOMAIN Fns |-> SetToSeq(Sweep(st0, Fns[j]))])]
 Flush(h) == PrintT(<<"SWEEP", ToJson([ctx |-> CtxNames[sw.i], h |-> h])>>)
 SweepInit == sw = SwOf(1) /\ S = sw.st0 /\ hist = sw.h0 /\ bad = {}
-\* one call per step: hazard-free calls extend the current chain (at most ChainMax calls), a call that is hazardous in the
-\* chain's state (or ends the instance) becomes a history of its own from the context state
+\* one call per step: the hazard-free calls of ONE function extend the current chain (a new function starts a new chain from the
+\* context state, so that every function is exercised right after the context prefix); a call that is hazardous in the chain's
+\* state (or ends the instance) becomes a history of its own from the context state
 SweepNext ==
   /\ bad' = bad
   /\ IF sw.evs = << >>
      THEN /\ Len(hist) > Len(sw.h0) => Flush(hist)
           /\ IF sw.i < Len(CtxNames) THEN sw' = SwOf(sw.i + 1) /\ S' = sw'.st0 /\ hist' = sw'.h0
              ELSE Len(hist) > Len(sw.h0) /\ hist' = sw.h0 /\ UNCHANGED <<S, sw>>
-     ELSE LET ev == Head(sw.evs) IN
+     ELSE LET ev == Head(sw.evs)
+              newfn == Len(hist) > Len(sw.h0) /\ hist[Len(hist)].e # ev.e
+              st == IF newfn THEN sw.st0 ELSE S
+              h == IF newfn THEN sw.h0 ELSE hist
+          IN
+          /\ newfn => Flush(hist)
           /\ sw' = [sw EXCEPT !.evs = Tail(@)]
-          /\ IF Hazards(S, ev) = << >> /\ Enabled(S, ev, FuelCap) /\ ev.e \notin {"close", "reinit"}
-             THEN LET h1 == Append(hist, Out(S, ev)) IN
+          /\ IF Hazards(st, ev) = << >> /\ Enabled(st, ev, FuelCap) /\ ev.e \notin {"close", "reinit"}
+             THEN LET h1 == Append(h, Out(st, ev)) IN
                   IF Len(h1) >= Len(sw.h0) + ChainMax \/ Len(sw.evs) = 1
                   THEN Flush(h1) /\ S' = sw.st0 /\ hist' = sw.h0
-                  ELSE S' = Spend(S, ev) /\ hist' = h1
-             ELSE Flush(Append(sw.h0, Out(sw.st0, ev))) /\ UNCHANGED <<S, hist>>
+                  ELSE S' = Spend(st, ev) /\ hist' = h1
+             ELSE Flush(Append(sw.h0, Out(sw.st0, ev))) /\ S' = st /\ hist' = h
 SweepSpec == SweepInit /\ [][SweepNext]_vars
 =============================================================================
